@@ -113,7 +113,7 @@ KNOB_DEFAULTS = {"MAX_LENGTH": 16384, "totalHeadersSize": 16384, "maxHeaders": 5
 
 
 class Server:
-    def __init__(self, sim, app, timeout=None, hwm=None, knobs=None, site=None):
+    def __init__(self, sim, app, timeout=None, hwm=None, knobs=None, site=None, transport_cls=None):
         self.sim = sim
         self.app = app                  # app(server, request, index)
         self.delivered = []             # Delivered, in order
@@ -131,7 +131,7 @@ class Server:
         self.channel = self.proto._channel
         for k, v in (knobs or {}).items():
             setattr(self.channel, k, v)
-        self.t = HTransport(sim, "S", hwm)
+        self.t = (transport_cls or HTransport)(sim, "S", hwm)
         self.t.protocol = self.proto
         self.proto.makeConnection(self.t)
 
